@@ -17,7 +17,7 @@ def run(ctx):
     camp.build()
     codec.report_gen_failures(camp, ctx, PROP)
     camp.meta_events(range(len(types)))
-    vcases = codec.value_cases(camp, ctx.rng, 3, 1)
+    vcases = codec.value_cases(camp, ctx.rng, 2, 1, n_boundary=2)
     order = {}
 
     def buf_of(c, need):
